@@ -677,7 +677,7 @@ fn main() {
             },
         );
     }
-    let depth = ctx.pick(7, 9);
+    let depth = ctx.pick(7, 10);
     let inits = vec![St { p: Polynomial::empty(), m: vec![] }, St { p: Polynomial::new(vec![r(1), r(-2), r(1)]), m: vec![r(1), r(-2), r(1)] }];
     explore(&ctx, "ring-operation histories", inits.clone(), BfsOpts { max_depth: depth, state_cap: ctx.pick(1_000_000, 20_000_000) });
     if ctx.quick() {
